@@ -52,4 +52,69 @@ Upd(cn, p) == LET a2 == cn.dir[p.from].arrived \cup (IF p.len > 0 THEN R!Covers(
                             !.last = p.ts]
 Finished(cn) == cn.rst \/ (cn.fin["c"] /\ cn.fin["s"])
 Idle(conns, c, now) == now - conns[c].last
+
+(* ---- the verdict on one observed packet step ----
+   conns: the reference table before the packet; cfg: [attach, keepAlive, maxChunks, maxBytes]; p: the packet record
+   extended with what was OBSERVED while the follower processed it:
+      cb     sequence of callbacks [k: "new"|"cdata"|"sdata"|"closed"|"term", c: conn, b: bytes, r: reason, client: endpoint]
+      live   the connections the follower still finds afterwards
+      chunks, bytes   out-of-order chunks / bytes this connection holds afterwards (both directions together)
+      buf    per endpoint the chunks held [off, b]
+      thrown ""
+   Judge returns [ok |-> every clause of C07 holds for this step, next |-> the reference table after it].
+   Used by the trace specification (observations of the real StreamFollower) and by FollowerImpl (observations of the
+   implementation-shaped model, for every interleaving). *)
+RangeOf(s) == {s[i] : i \in 1..Len(s)}
+Judge(conns, cfg, p) ==
+    LET Cbs(kind) == {x \in RangeOf(p.cb) : x.k = kind}
+        c == p.conn
+        live0 == Live(conns, c)
+        creates == Creates(conns, cfg, p)
+        tracked == live0 \/ creates
+        cn0 == IF live0 THEN conns[c] ELSE IF creates THEN NewConn(p) ELSE <<>>
+        cn1 == IF tracked THEN Upd(cn0, p) ELSE <<>>
+        fin == tracked /\ Finished(cn1)
+        over == tracked /\ (p.chunks > cfg.maxChunks \/ p.bytes > cfg.maxBytes)
+        \* entries that MUST be gone (idle >= 2*keepAlive) and entries that MAY be gone (idle >= keepAlive) after this packet
+        others == (DOMAIN conns) \ {c}
+        mustGo == {d \in others : p.ts - conns[d].last >= 2 * cfg.keepAlive}
+        mayGo  == {d \in others : p.ts - conns[d].last >= cfg.keepAlive}
+        timedOut == {x.c : x \in {y \in Cbs("term") : y.r = "TIMEOUT"}}
+        \* the connection of this packet itself is never swept in the same call: its last = ts
+        keep == IF tracked /\ ~fin /\ ~over THEN {c} ELSE {}
+        liveAfter == keep \cup (others \ timedOut)
+    IN [ok |->
+          /\ p.thrown = ""
+          \* P1: announced exactly once, with the sender of the first packet as client
+          /\ (\E x \in Cbs("new") : x.c = c) <=> creates
+          /\ Cardinality(Cbs("new")) = (IF creates THEN 1 ELSE 0)
+          /\ \A x \in Cbs("new") : x.client = p.from
+          \* P2: data callbacks only for this connection, in the right direction, bytes as ReassemblyAbs demands
+          /\ \A x \in Cbs("cdata") \cup Cbs("sdata") : x.c = c /\ tracked
+          /\ tracked =>
+               LET side == IF p.from = cn0.client THEN "cdata" ELSE "sdata"
+                   wrong == IF side = "cdata" THEN "sdata" ELSE "cdata"
+                   got == LET xs == Cbs(side) IN IF xs = {} THEN <<>> ELSE (CHOOSE x \in xs : TRUE).b
+                   d0 == cn0.dir[p.from]
+                   chunks == RangeOf(p.buf[p.from])
+               IN /\ Cbs(wrong) = {} /\ Cardinality(Cbs(side)) <= 1
+                  /\ IF p.len > 0
+                     THEN R!ArriveOKB(LAMBDA q : ByteOf(c, p.from, q), d0.arrived, d0.k, p.off, p.len,
+                                      cn1.dir[p.from].arrived, cn1.dir[p.from].k, got, chunks, R!SumLen(chunks))
+                     ELSE got = <<>>
+          \* P3: forgotten exactly when both sides sent FIN or either sent RST; closed reported once
+          /\ (\E x \in Cbs("closed") : x.c = c) <=> fin
+          /\ Cardinality(Cbs("closed")) = (IF fin THEN 1 ELSE 0)
+          \* P4: over the limits => terminated with BUFFERED_DATA, exactly once, and only then (when the same packet also
+          \* closes the connection the property does not say which of the two reports wins: either is accepted)
+          /\ (over /\ ~fin) => (\E x \in Cbs("term") : x.c = c /\ x.r = "BUFFERED_DATA")
+          /\ (\E x \in Cbs("term") : x.c = c /\ x.r = "BUFFERED_DATA") => over
+          /\ \A x \in Cbs("term") : x.r \in {"BUFFERED_DATA", "TIMEOUT"} /\ (x.r = "BUFFERED_DATA" => x.c = c)
+          /\ Cardinality({x \in Cbs("term") : x.r = "BUFFERED_DATA"}) <= 1
+          \* P5: timeouts only for idle entries, each once; nothing idle for two keep-alive periods survives
+          /\ timedOut \subseteq mayGo /\ mustGo \subseteq timedOut
+          /\ Cardinality({x \in Cbs("term") : x.r = "TIMEOUT"}) = Cardinality(timedOut)
+          \* what find_stream still finds
+          /\ RangeOf(p.live) = liveAfter,
+        next |-> [d \in liveAfter |-> IF d = c THEN cn1 ELSE conns[d]]]
 =============================================================================
